@@ -230,6 +230,39 @@ static ACTIVE: Mutex<Vec<(std::thread::ThreadId, String, u64, Instant)>> = Mutex
 fn case_begin(group: &str, case: u64) { ACTIVE.lock().unwrap().push((std::thread::current().id(), group.to_string(), case, Instant::now())); }
 fn case_end() { let id = std::thread::current().id(); ACTIVE.lock().unwrap().retain(|e| e.0 != id); }
 
+// ---------------------------------------------------------------- fatal signals
+struct CrashCtx { prop: String, cfg: Cfg, verif_dir: String }
+static CRASH: std::sync::OnceLock<CrashCtx> = std::sync::OnceLock::new();
+
+/// A fatal signal (abort from the allocator or a stack overflow, SIGSEGV, SIGFPE...) ends the process; `./check` turns that
+/// exit status into a VIOLATION. This handler only adds which case the dying thread was executing: it writes that case's
+/// replay file, prints one `CRASH-CASE` line and re-raises the signal with the default action. Best effort by design
+/// (not async-signal-safe): if it fails the process still dies by a signal and the violation is reported without a case.
+extern "C" fn on_fatal(sig: libc::c_int) {
+    unsafe { libc::signal(sig, libc::SIG_DFL); }
+    if let Some(ctx) = CRASH.get() {
+        let me = std::thread::current().id();
+        if let Ok(act) = ACTIVE.try_lock() {
+            if let Some(e) = act.iter().find(|e| e.0 == me) {
+                let dir = format!("{}/replays/{}", ctx.verif_dir, ctx.prop);
+                let _ = std::fs::create_dir_all(&dir);
+                let path = format!("{}/{}_crash_{}_{}.json", dir, ctx.cfg.tier.name(), e.1, e.2);
+                let body = replay_json(&ctx.cfg, &e.1, e.2, json!({"fatal_signal": sig, "note": "the process was killed by this signal while executing this case"}));
+                let _ = std::fs::write(&path, body.to_string());
+                eprintln!("CRASH-CASE property={} group={} case={} signal={} replay={}", ctx.prop, e.1, e.2, sig, path);
+            }
+        }
+    }
+    unsafe { libc::raise(sig); }
+}
+
+pub fn install_crash_handler(prop: String, cfg: Cfg, verif_dir: String) {
+    let _ = CRASH.set(CrashCtx { prop, cfg, verif_dir });
+    for sig in [libc::SIGABRT, libc::SIGFPE, libc::SIGILL, libc::SIGBUS] {
+        unsafe { libc::signal(sig, on_fatal as extern "C" fn(libc::c_int) as libc::sighandler_t); }
+    }
+}
+
 /// Start the process-wide watchdog: a case that does not finish within `deadline` (cases are designed to take well
 /// under a second) is reported as a hang of the library call it is executing: VIOLATION line, replay file, evidence,
 /// exit 1. The stuck thread cannot be cancelled, so the process ends here.
